@@ -10,6 +10,9 @@ def run(ctx):
     args = ["-bypass"] + (["-thorough"] if not ctx.quick else [])
     trace, _ = routerfam.run_mode(ctx, drv, "c19", args)
     routerfam.validate(ctx, trace, only=["Inv_C19_", "Inv_C08_NoDisplace", "Unconsumable"], require_events=300)
+    # the same scenarios with redis behind a (for one scenario: small) memory cache: entries that come back from redis
+    trace2, _ = routerfam.run_mode(ctx, drv, "c19-redisboth", args + ["-redis", "both"])
+    routerfam.validate(ctx, trace2, only=["Inv_C19_", "Inv_C08_NoDisplace", "Unconsumable"], require_events=300)
     ctx.assumptions += [
         "refresh-window scenarios: 8 s entries, 40+40+10 concurrent hits between 6.3 s and 6.9 s while the scripted upstream holds the refresh for 1.1 s, or fails it (garbage, silence)",
         "hit latency bound is one-sided (1.5 s) against a refresh stalled for much longer than the slack in the silent-upstream scenario",
